@@ -84,4 +84,6 @@ Fixpoint den (p : pt) (e : qenv) : option Q :=
       if Qeqb dl dr then Some dl else if Qeqb dl 0 then Some dr else if Qeqb dr 0 then Some dl else None
   | PWrap b => den b e
   | PRev b => den b e
+  | PConstr _ b => den b e       (* a violated constraint makes the code raise; an error is always acceptable *)
+  | PSingle b => den b e         (* rendering a sub-template as one waveform must not change any duration *)
   end.
